@@ -967,11 +967,11 @@ class Angle(object):
         30.0
         """
 
-        if isinstance(b, (int, float)):
-            b = Angle(b)
+        if isinstance(b, Angle):
+            b = b._deg
         # Negative values will be treated as if they were positive
-        sign = 1.0 if b._deg >= 0.0 else -1.0
-        return Angle(sign * (abs(b._deg) % self._deg))
+        sign = 1.0 if b >= 0.0 else -1.0
+        return Angle(sign * (abs(b) % self._deg))
 
     def __radd__(self, b):
         """This method defines the addition between Angles by the right
